@@ -34,7 +34,7 @@ def cases(tier, seed):
     rng = util.rng_for(ID, tier, seed)
     out = []
     routes = ["fixedgrid", "fixedgrid", "everystep_overshoot", "everystep_clip", "fixedpoint", "fi_vs_fp"]
-    n = 48 if tier == "quick" else 360
+    n = 54 if tier == "quick" else 378  # multiples of 54: every route meets every (factorisation, calibration) pair
     for k in range(n):
         route = routes[k % len(routes)]
         order = rng.choice([1, 1, 2])
@@ -48,7 +48,9 @@ def cases(tier, seed):
         out.append(
             {
                 "id": f"{route}-{k}", "route": route, "fact": configs.FACTS[(k // len(routes)) % 3],
-                "cal": configs.CALS[(k // (3 * len(routes))) % 3] if tier == "thorough" else rng.choice(configs.CALS),
+                "cal": configs.CALS[(k // (3 * len(routes))) % 3],
+                # checkpoints inside a step only exist without clipping: three of four fixed-point cases run unclipped
+                "clip": (k // len(routes)) % 4 == 3,
                 "ts": rng.choice(["ts0", "ts1"]), "nu": nu, "relin": rng.random() < 0.5,
                 "init": rng.choice(["exact", "exact", "inexact"]), "damp": rng.choice([0.0, 0.0, 1e-2]),
                 "steps": steps, "field": field.to_json(), "inits": [[str(x) for x in blk] for blk in inits], "t0": str(t0),
@@ -312,7 +314,7 @@ def run_case(case):
                     sol = solve(cfg["prior"], t0, T1, atol=case["tol"], rtol=case["tol"], dt0=case["dt0"], damp=case["damp"])
             else:
                 r = np.random.default_rng(case["seedc"])
-                clip = bool(case["seedc"] % 2)
+                clip = bool(case.get("clip", case["seedc"] % 2))
                 # two-pass construction: record the natural step ends first, then force the layouts that matter:
                 # several checkpoints inside one step, a checkpoint exactly at a step end, plus random ones
                 log0 = record.Log()
